@@ -39,6 +39,8 @@ def all_services() -> Dict[str, Dict[str, Any]]:
     s: Dict[str, Dict[str, Any]] = {
         "A": {"name": "A", "did": 0xF100, "layout": "top", "type": "u8"},
         "B": {"name": "B", "did": 0xF101, "layout": "top", "type": "u8"},
+        # reply `62 F1 02 <wanted> <other>`: a variant's alternative definition of S reads `id` from the second byte
+        "S": {"name": "S", "did": 0xF102, "layout": ref.SWAP, "type": "u8"},
     }
     i = 0
     for lay in ref.LAYOUTS:
@@ -69,10 +71,12 @@ def shapes(alpha: Sequence[Dict[str, Any]], max_patterns: int, max_params: int, 
     return seqs(pats, min_patterns, max_patterns)
 
 
-def ev(patterns: List[List[Dict[str, Any]]], own: Sequence[str] = ()) -> Dict[str, Any]:
+def ev(patterns: List[List[Dict[str, Any]]], own: Sequence[str] = (), alt: Sequence[str] = ()) -> Dict[str, Any]:
     c: Dict[str, Any] = {"kind": "EV", "patterns": patterns}
     if own:
         c["own"] = list(own)
+    if alt:
+        c["alt"] = list(alt)
     return c
 
 
@@ -98,7 +102,7 @@ class Family:
         # cached request again after another request was answered; not for the layout x type families
         # (the two big thorough pools -- triples with 40 shapes, own-service with lists of three -- are explored in this mode
         # by the quick tier's smaller bounds only)
-        self.buffer_mode = name in ("main", "deep", "triples", "quads", "own-service", "base", "neg-target") and self.nlists() <= 30000
+        self.buffer_mode = name in ("main", "deep", "triples", "quads", "own-service", "alt-service", "base", "neg-target") and self.nlists() <= 30000
 
     def nlists(self) -> int:
         return sum(len(self.pool)**n for n in range(self.maxlen + 1))
@@ -131,6 +135,13 @@ def families(quick: bool) -> List[Family]:
     own_pool = [ev(s) for s in shapes(P3, 1, 2)] + [ev(s, own=["A"]) for s in shapes(P3, 1, 2)]
     fams.append(Family("own-service", own_pool, 2 if quick else 3,
                        "ECU variants with <= 1 pattern, each also with its own re-definition of service A (other request bytes)"))
+    # a variant that re-defines service S under the same short name with the SAME request but another response layout:
+    # identical request, identical reply bytes, different decoded value
+    PS = [mp("S", "1"), mp("S", "2"), mp("A", "1")]
+    alt_pool = [ev(s) for s in shapes(PS, 1, 2)] + [ev(s, alt=["S"]) for s in shapes(PS, 1, 2)]
+    fams.append(Family("alt-service", alt_pool, 2,
+                       "ECU variants with <= 1 pattern over {(S,'1'),(S,'2'),(A,'1')}, each also with its own alternative definition of "
+                       "service S (same request bytes, identification value at another byte of the response)"))
     # base variants: at most one pattern; per-parameter physical / functional addressing
     PB = [mp(s, e, phys=ph) for (s, e) in (("A", "1"), ("A", "2"), ("B", "1")) for ph in (None, False)]
     if quick:
